@@ -1,4 +1,48 @@
 TEXT = {
+ 'C04': {
+  'text': 'Lean 4 theorem over the frame machine (a statement-by-statement model of EVM.Call/CallCode/DelegateCall/StaticCall/create run on an '
+          'ARBITRARY sequence of interpreter events, environment answers and join-point outcomes): every call frame that ends in an error leaves '
+          'the world (the StateDB journal of effects) exactly as at its entry; a failed create leaves it as at its snapshot; effects made before a '
+          'frame survive it; the snapshots of all open frames stay valid prefixes (invariant proved by induction over events). Tied by running '
+          'generated call-tree programs (all call kinds, creates, value transfers, reverts, INVALID, mock Aspects failing at every position, repeated '
+          'top-level calls) on the real EVM: the harness logger turns the run into the event stream, the model predicts tree, callbacks, surviving '
+          'effects; an independent S atomic check compares final storage and balances with the effects of frames that succeeded all the way up.',
+  'note': 'Trusted: Lean kernel + standard axioms; hand-written frame model validated by correspondence; the StateDB revision contract; the '
+          'inherited interpreter (not modelled - it is the event source). Fixed defect D1 (pre-join-point failure skipped the revert).',
+  'technique': 'Lean 4 invariant proof by induction over interpreter-event histories + call-tree program correspondence',
+ },
+ 'C05': {
+  'text': 'Lean 4 theorems on the frame model: EVM.Call appends exactly one pre record iff the call passes the checks, targets code (not a '
+          'precompile, not code-less) and join points are on - with this call\'s caller, callee, calldata (any length incl. empty), value, supplied '
+          'gas and the index of the node pushed for this call; a failing pre join point opens no frame (no code, no post); when a frame\'s '
+          'interpreter returns exactly one post record is appended iff it is a contract call whose pre ran, carrying the interpreter\'s gas, return '
+          'data and error text; other frame kinds never touch the log. Tied by mock Aspects that decode the protobuf request they receive; an '
+          'independent S jp check verifies order relative to the callee\'s first/last instruction.',
+  'note': 'Reading: a message call that runs contract code = EVM.Call reaching non-empty code of a non-precompile. Global LIFO nesting follows '
+          'from the stack discipline of the machine (posts are emitted when the innermost frame is popped) and is checked on real runs, not '
+          'stated as one global theorem. Fixed defect D16 (empty calldata made the join-point request unmarshalable).',
+  'technique': 'Lean 4 exact characterisation of the join-point log per frame function + correspondence with request-decoding mock Aspects',
+ },
+ 'C06': {
+  'text': 'Lean 4 theorems on the frame model: the caller gets back tailGas(post.gas, final error) - exactly what the post join point left on '
+          'success or revert, nothing otherwise; an out-of-gas join-point failure becomes the EVM\'s own out-of-gas error with no gas; any other '
+          'non-revert failure forfeits the gas; a failing pre join point is subject to the same rule; tailGas never exceeds its input, so no frame '
+          'returns more than it was given when join points and interpreter do not create gas. Tied by mock Aspects burning 0/1/777/5000/all gas and '
+          'failing in four ways at both join points; S gas checks callee start gas, returned gas and error against the join-point log.',
+  'note': 'An Aspect revert produced by the real runtime is aspect-core\'s own error value, not the EVM sentinel, so the code treats it as a '
+          'generic failure (gas forfeited); model and harness compare errors as Go does (identity). Fixed defect D1.',
+  'technique': 'Lean 4 proof of the gas equations of prologue/epilogue for all join-point outcomes + gas-burning mock correspondence',
+ },
+ 'C08': {
+  'text': 'Lean 4 theorems: every Call/create invocation - refused or not - pushes exactly one node at the next index with the inputs as '
+          'made; no later tracer operation alters a node\'s inputs, index or parent (Stable, for every continuation); the exit writes exactly the '
+          'triple handed back to the caller on the cursor node and on no other; the parent of a new node is the node of the innermost CALL/CREATE '
+          'frame in progress (from the cursor invariant proved over all event sequences). Tied by call-tree programs that overwrite the argument '
+          'area after calls; S node compares every node after the whole transaction with bytes captured at the moment of the call.',
+  'note': 'That the implementation stores a copy of the calldata rather than a view of caller memory is a property of Go slices checked by the '
+          'correspondence (fixed defect D11), not expressible in the value-based model.',
+  'technique': 'Lean 4 invariant (cursor = innermost node frame) + immutability lemmas + post-transaction node comparison',
+ },
  'C11': {
   'text': 'Lean 4 theorems on the model of the key tree + flat index exactly as coded: a refused registration/change leaves the state equal; '
           'a registration whose name, (slot,offset) and (slot,offset,type) are new is reachable through BOTH lookups at the same fresh node; an '
